@@ -159,9 +159,12 @@ def faults_for(args: dict, kw: dict) -> list[tuple[str, dict]]:
             joint = [("flatten", lambda x: x.reshape(-1)), ("first-row", lambda x: x[0]), ("transpose", lambda x: x.T.contiguous()),
                      ("unsqueeze-first", lambda x: x.unsqueeze(0)), ("one-more-row", lambda x: torch.cat([x, x[:1]], dim=0))]
         for tag, g in joint:
-            for grp, gname in ((same, "same-shaped"), (data, "all")):
-                if gname == "all" and grp == same:
+            nonw = [a for a in same if "weight" not in a]
+            done = []
+            for grp, gname in ((same, "same-shaped"), (data, "all"), (nonw, "non-weight")):
+                if not grp or grp in done:
                     continue
+                done.append(grp)
                 f = dict(args)
                 try:
                     for a in grp:
